@@ -139,8 +139,8 @@ extern "C" void w_c17_location(int empty, int kind, int nsub, unsigned g0, unsig
     /* both children may be RATE nodes: each gets one child (node 5 / 6): an identifier of symbol 0 */
     verif_nodes[1].nsub = (k0 == RATE) ? 1 : 0; verif_nodes[1].sub[0] = 5;
     verif_nodes[2].nsub = (k1 == RATE) ? 1 : 0; verif_nodes[2].sub[0] = 6;
-    verif_nodes[5].kind = IDENTIFIER; verif_nodes[5].nsub = 0; verif_nodes[5].sym = 0;
-    verif_nodes[6].kind = IDENTIFIER; verif_nodes[6].nsub = 0; verif_nodes[6].sym = 0;
+    verif_nodes[5].kind = IDENTIFIER; verif_nodes[5].nsub = 0; verif_nodes[5].symbol = symbol_t(0);
+    verif_nodes[6].kind = IDENTIFIER; verif_nodes[6].nsub = 0; verif_nodes[6].symbol = symbol_t(0);
     verif_syms[0].type = mk(CLOCK, clk_w);
     location_t loc; if (!empty) loc.invariant = expression_t(0);
     FeatureChecker fc; FLAGS_IN(fc);
